@@ -16,7 +16,7 @@ chunk = KaniUnit("c12_chunk", APP,
                              subst=[("queries.len()", "len"), ("self.parallelism", "parallelism")])],
                  modules=[dict(file=CA, src="c12_chunk.rs"), dict(file=CA, src="app_wit.rs")],
                  harnesses=[H("c12_chunk_size_nonzero", "complete", "CompassApp::run: chunk size != 0 for every batch size (u32) and parallelism >= 1 (u16) -- par_chunks(0) panics", timeout=200)])
-chunk.native_witnesses = ['c12_wit_empty_batch', 'c12_wit_rejected_only_batches', 'c12_wit_same_origin_and_destination', 'c12_wit_inject_plugin_on_non_object_queries', 'c12_wit_grid_search_empty_array', 'c12_wit_ill_typed_vertex_fields']
+chunk.native_witnesses = ['c12_wit_empty_batch', 'c12_wit_rejected_only_batches', 'c12_wit_same_origin_and_destination', 'c12_wit_inject_plugin_on_non_object_queries', 'c12_wit_grid_search_empty_array', 'c12_wit_ill_typed_vertex_fields', 'c12_wit_wrong_type_query_is_echoed']
 msv = VerusUnit("c17_multiset", "c17_multiset", rlimit=60, paired_kani=(msk, []))
 gr = VerusUnit("c15_graph", "c15_graph", rlimit=60)
 UNITS = [msv, gr, msk, chunk]
